@@ -25,7 +25,17 @@ def run(ctx):
         short = [e for e in edits if len(e["prog"]) <= 2]
         long3 = [e for e in edits if len(e["prog"]) == 3]
         edits = short + rng.sample(long3, 6000)
-        fetches = rng.sample(fetches, 12000)
+        # the struct-built and the push-then-pull routes are small once the combinations that do not exist are
+        # dropped (the driver skips them): always run them completely
+        def effective(f):
+            if f["via"] == "orig":
+                return f["variant"] == "canon" and f["kind"] != "d1_signed" and f["hdr"] == "absent" and f["hdrmt"] == "absent"
+            if f["via"] == "regputget":
+                return f["desc"] == "absent" and f["hdr"] == "absent" and f["hdrmt"] == "absent" and f["kind"] != "d1_signed"
+            return False
+        small = [f for f in fetches if effective(f)]
+        rest = [f for f in fetches if f["via"] not in ("orig", "regputget")]
+        fetches = small + rng.sample(rest, 12000)
     rng.shuffle(edits)
     rng.shuffle(fetches)
     nchunks = 8 if ctx.thorough else 4
